@@ -328,6 +328,50 @@ theorem getitem_tuple_decomposes (s : Stack) (f : Item) (ra rb ca cb : Option In
 example : ((Stack.cropPixels ⟨0, 6, 1, ⟨0, 5, 0, 4⟩⟩ (some 1) (some 3) none (some (-1))).bind
     (·.frameItem (.slice (some 1) none (some 2)))) = .ok ⟨1, 6, 2, ⟨1, 3, 0, 3⟩⟩ := by decide
 
+/-- Non-vacuity of `frames_preserve_roi`. -/
+example : (Stack.frameItem ⟨0, 6, 1, ⟨1, 3, 0, 3⟩⟩ (.int (-1))) = .ok ⟨5, 6, 1, ⟨1, 3, 0, 3⟩⟩ := by decide
+
+/-! ## The step stays positive -/
+
+/-- Every operation that returns a stack keeps the step positive, so the hypothesis `0 < st` of the
+    theorems above holds for every stack reachable from `ImageStack(...)` (step 1). -/
+theorem step_positive_preserved (s s' : Stack) (hst : 0 < s.st) :
+    (∀ f, s.frameItem f = .ok s' → 0 < s'.st) ∧
+    (∀ x0 x1 y0 y1, s.cropPixels x0 x1 y0 y1 = .ok s' → 0 < s'.st) ∧
+    (∀ items, s.getitemTuple items = .ok s' → 0 < s'.st) := by
+  have hframe : ∀ (t : Stack) f, s.frameItem f = .ok t → 0 < t.st := by
+    intro t f h
+    cases f with
+    | int i =>
+      have := index_refines s hst i
+      simp only [Stack.frameItem] at h
+      rw [h] at this
+      cases hp : pyIndex s.frames i with
+      | none => rw [hp] at this; exact this.elim
+      | some p => rw [hp] at this; rw [this.2.1]; exact hst
+    | slice a b c =>
+      simp only [Stack.frameItem] at h
+      rcases Int.lt_trichotomy (c.getD 1) 0 with hc | hc | hc
+      · rcases slice_negative_step s hst a b c hc with h' | h' <;> rw [h'] at h <;> cases h
+      · unfold Stack.sliceFrames at h
+        simp only [hc, if_true] at h
+        cases h
+      · have := slice_refines s hst a b c hc
+        rw [h] at this
+        exact this.2.2.1
+  refine ⟨hframe s', ?_, ?_⟩
+  · intro x0 x1 y0 y1 h
+    rw [(crop_preserves_frames s s' x0 x1 y0 y1 h).2.2.2]; exact hst
+  · intro items h
+    unfold Stack.getitemTuple at h
+    cases items with
+    | nil => cases h
+    | cons f rest =>
+      simp only [bind, Except.bind, pure, Except.pure] at h
+      repeat' split at h
+      all_goals first
+        | (cases h; done)
+        | (cases h; rename_i t hf; exact hframe t f hf)
 /-! ## Finding F2: the pinned crop drops the step, kernel-checked -/
 
 /-- `stack[::2].crop_by_pixels(1, 3, None, None)` on the pinned snapshot shows all six frames again. -/
@@ -350,10 +394,6 @@ theorem F9_witness :
     (Stack.kymoStack ⟨0, 3, 1, ⟨4, 10, 0, 6⟩⟩ 0 2 4 2 0).toOption.map Stack.roi = some ⟨4, 9, 2, 3⟩ := by decide
 
 /-! ## ROI re-cropping is NumPy slicing of the current image -/
-
-/-- The ROI lies inside a raw image of `H` rows and `W` columns and is not empty. -/
-def Roi.Within (r : Roi) (H W : Nat) : Prop :=
-  0 ≤ r.xMin ∧ r.xMin < r.xMax ∧ r.xMax ≤ W ∧ 0 ≤ r.yMin ∧ r.yMin < r.yMax ∧ r.yMax ≤ H
 
 /-- `Roi.crop` then `Roi.__call__` on the raw image is the NumPy slice `[y0:y1, x0:x1]` of the currently
     visible image — for `None`, negative and out-of-range bounds; the new ROI stays inside the raw image and
